@@ -135,6 +135,32 @@ func genC03(g *Gen) {
 		}
 		g.end()
 	}
+	// many keys: rows tied on the first four, five ... decided by the last
+	for rep := 0; rep < g.pick(30, 300); rep++ {
+		n := []int{3, 8, 12, 13, 40, 41}[g.rng.Intn(6)]
+		nk := 4 + g.rng.Intn(4)
+		st := Step{Op: "New", Recv: -1, HasOrder: true}
+		ords := []Order{}
+		for k := 0; k < nk; k++ {
+			v := make([]int64, n)
+			for i := range v {
+				v[i] = int64(g.rng.Intn(2))
+				if k == nk-1 {
+					v[i] = int64(g.rng.Intn(n))
+				}
+			}
+			name := toBS("K" + itoa(k))
+			st.Data = append(st.Data, ColData{Name: name, Kind: "int", Ints: v})
+			st.ColOrder = append(st.ColOrder, name)
+			ords = append(ords, Order{Col: name, Rev: g.rng.Intn(4) == 0})
+		}
+		g.begin("sort by many keys")
+		f := g.do(st)
+		f = g.do(Step{Op: "WithRowNums", Recv: f, Dst: rid})
+		g.do(Step{Op: "Sort", Recv: f, Orders: append(ords, Order{Col: rid}), Rid: rid})
+		g.do(Step{Op: "Sort", Recv: f, Orders: ords, Rid: rid})
+		g.end()
+	}
 	// later keys decide between rows that are tied on the earlier ones - also where the tie is null = null
 	for rep := 0; rep < g.pick(60, 600); rep++ {
 		n := 3 + g.rng.Intn(6)
